@@ -205,7 +205,18 @@ def near_tie_w(W):
     d = sorted((math.log(S.rates[c, m]) - math.log(W.rb[c, m]), (c, m)) for c, m in S.obs)
     med = (S.rates.sum() - W.rb.sum()) / max(len(S.obs), 1)
     ad = sorted((abs(v - med), b) for v, b in d)
-    return any(b[0] - a[0] <= 1e-9 * max(b[0], 1e-300) and a[1] != b[1] for a, b in zip(ad, ad[1:])) or any(a[0] < 1e-9 * (abs(med) + 1e-300) for a in ad)
+
+    def pair(b):
+        return (float(S.rates[b]), float(W.rb[b]))
+
+    def same_numbers(a, b):
+        # identical or mirrored (rate_A, rate_B) pairs with a null median of exactly 0: |d| is bit-equal in any implementation
+        return med == 0 and (pair(a) == pair(b) or pair(a) == pair(b)[::-1])
+    # exact ties / zeros from identical or mirrored rate pairs with bit-equal totals are decided identically in any order; values that
+    # merely agree to within rounding (4/6 vs 6/9) are order dependent
+    near_ties = any(b[0] - a[0] <= 1e-9 * max(b[0], 1e-300) and a[1] != b[1] and not same_numbers(a[1], b[1]) for a, b in zip(ad, ad[1:]))
+    near_zero = any(a[0] < 1e-9 * (abs(med) + 1e-300) and not (med == 0 and pair(a[1])[0] == pair(a[1])[1]) for a in ad)
+    return near_ties or near_zero
 
 
 def t_ill_conditioned(W, binary=False):
@@ -304,6 +315,16 @@ def cases(draw):
     setup = draw(G.setups(max_cells=10, max_mags=4, max_events=25, lo=-4, hi=2))
     setup["rates"] = [r if r > 0 else 0.01 * (i + 1) for i, r in enumerate(setup["rates"])]
     rates_b = [float("%.6g" % (r * draw(st.floats(0.3, 3.0)))) for r in setup["rates"]]
+    if draw(st.integers(0, 3)) == 0:
+        # dyadic rates and B = A with some pairs of bins swapped: totals bit-equal in any summation order, the null median of the
+        # W-test is exactly 0 and events in unswapped bins have a log-rate difference of exactly 0 (wherever they are stored)
+        nr = len(setup["rates"])
+        setup["rates"] = [draw(st.integers(1, 640)) / 64.0 for _ in range(nr)]
+        setup.pop("rate_dtype", None)
+        rates_b = list(setup["rates"])
+        for _ in range(draw(st.integers(1, max(1, nr // 2)))):
+            i, j = draw(st.integers(0, nr - 1)), draw(st.integers(0, nr - 1))
+            rates_b[i], rates_b[j] = rates_b[j], rates_b[i]
     nc, nm = len(setup["region"]["cells"]), setup["mags"]["n"]
     J = draw(st.integers(1, 8))
     cats = [draw(st.lists(st.tuples(st.integers(0, nc - 1), st.integers(0, nm - 1)).map(list), max_size=10)) for _ in range(J)]
